@@ -19,6 +19,8 @@ import (
 	"strconv"
 	"strings"
 	"sync"
+	"sync/atomic"
+	"time"
 
 	"verifharness/lab/ev"
 	"verifharness/lab/tunlab"
@@ -267,7 +269,80 @@ func runHistory(r *ev.Run, caT tls.Certificate, name string, rng *rand.Rand, nOp
 			w.compare()
 		}
 	}
+	if !w.stopped {
+		w.concurrentPhase(rng)
+	}
 	return w.hist
+}
+
+// concurrentPhase: at the end of a history, for up to six hostnames a client owns, that client's
+// PublishTunnel and ReleaseTunnel of the same hostname are issued at the same time, with a seeded
+// 0-2 ms stall in front of every lease acquisition (the point where one client's requests
+// serialise). Whatever order the two take: once both have returned, a hostname that is no longer
+// registered to anybody has no route slots left.
+func (w *world) concurrentPhase(rng *rand.Rand) {
+	ctx := context.Background()
+	type own struct {
+		h  string
+		ci int
+	}
+	var owns []own
+	for h, ci := range w.m.reg {
+		owns = append(owns, own{h, ci})
+	}
+	sort.Slice(owns, func(i, j int) bool { return owns[i].h < owns[j].h })
+	for len(owns) < 6 {
+		ci := rng.Intn(len(w.clients))
+		resp, err := w.lab.Server.GenerateHostname(rpcCtx(w.clients[ci], nil, 100000+len(owns)), &protocol.GenerateHostnameRequest{})
+		if err != nil {
+			break
+		}
+		owns = append(owns, own{resp.GetHostname(), ci})
+	}
+	if len(owns) > 6 {
+		owns = owns[:6]
+	}
+	delays := make([]time.Duration, 64)
+	for i := range delays {
+		delays[i] = time.Duration(rng.Intn(2000)) * time.Microsecond
+	}
+	var nth atomic.Int64
+	w.lab.Ring.KV.SetBefore(func(op, key string) { time.Sleep(delays[int(nth.Add(1))%len(delays)]) })
+	defer w.lab.Ring.KV.SetBefore(nil)
+	for i, o := range owns {
+		caller := w.clients[o.ci]
+		var perr, rerr error
+		var wg sync.WaitGroup
+		wg.Add(2)
+		go func() {
+			defer wg.Done()
+			_, perr = w.lab.Server.PublishTunnel(rpcCtx(caller, nil, 200000+2*i), &protocol.PublishTunnelRequest{Hostname: o.h, Servers: []*protocol.Node{{Id: w.servers[0].Tunnel.Id, Address: w.servers[0].Tunnel.Address}, {Id: w.servers[1].Tunnel.Id, Address: w.servers[1].Tunnel.Address}}})
+		}()
+		go func() {
+			defer wg.Done()
+			_, rerr = w.lab.Server.ReleaseTunnel(rpcCtx(caller, nil, 200001+2*i), &protocol.ReleaseTunnelRequest{Hostname: o.h})
+		}()
+		wg.Wait()
+		after := w.dump()
+		registered := false
+		for _, hs := range after.regs {
+			for _, h := range hs {
+				if h == o.h {
+					registered = true
+				}
+			}
+		}
+		w.hist.Ops = append(w.hist.Ops, opRecord{Step: w.step + 1 + i, Caller: caller.Name, Op: "publish||release (concurrent)", Hostname: o.h, Result: "publish: " + resStr(perr) + "; release: " + resStr(rerr)})
+		w.r.Case(fmt.Sprintf("concurrent/publish||release/pub=%v/rel=%v/registered-after=%v", perr == nil, rerr == nil, registered))
+		w.r.Count("concurrent_publish_release_pairs", 1)
+		w.r.Count(fmt.Sprintf("concurrent_outcome/publish_ok=%v/release_ok=%v/registered_after=%v/routes_after=%d", perr == nil, rerr == nil, registered, len(after.routes[o.h])), 1)
+		if !registered && len(after.routes[o.h]) > 0 {
+			w.step += 1 + i
+			w.viol("routes-left-for-released-hostname", fmt.Sprintf("%s published and released %q at the same time (publish: %s, release: %s): the hostname is no longer registered to anybody, yet %d route slot(s) still name a client", caller.Name, o.h, resStr(perr), resStr(rerr), len(after.routes[o.h])))
+			return
+		}
+		_ = ctx
+	}
 }
 
 func resStr(err error) string {
